@@ -299,10 +299,17 @@ def decodeDouble (bits : Nat) : Nat × Nat :=
 /-- `(size_t) (totbits * chars_per_bit_exactly)`: size_t → double (rn53), double multiply (rn53),
     truncation. -/
 def mulTrunc (totbits : Nat) (bits : Nat) : Nat :=
-  let (m, k) := decodeDouble bits
-  let (t, tu, _) := rn53 totbits 0
-  let (p, pu, pk) := rn53 (t * m) k
-  (p <<< (pu + tu)) / 2 ^ pk
+  let d := decodeDouble bits                 -- (mantissa, exponent): value d.1 / 2^d.2
+  let t := rn53 totbits 0                    -- (double) totbits
+  let p := rn53 (t.1 * d.1) d.2              -- the rounded product
+  (p.1 <<< (p.2.1 + t.2.1)) / 2 ^ p.2.2
+
+/-- the two branches of MPN_SIZEINBASE after `__totbits` is known (gmp-impl.h:2717-2724) -/
+def sizeinbaseBits (totbits base : Nat) : Nat :=
+  if pow2P base then
+    let lb := bigBase base
+    (totbits + lb - 1) / lb
+  else mulTrunc totbits (cpbeBits base) + 1
 
 /-- MPN_SIZEINBASE (gmp-impl.h:2700) -/
 def sizeinbase (up : List Nat) (base : Nat) : Nat :=
@@ -310,10 +317,7 @@ def sizeinbase (up : List Nat) (base : Nat) : Nat :=
   else
     let cnt := clz up.getLast!
     let totbits := up.length * 64 - cnt
-    if pow2P base then
-      let lb := bigBase base
-      (totbits + lb - 1) / lb
-    else mulTrunc totbits (cpbeBits base) + 1
+    sizeinbaseBits totbits base
 
 /-- MPN_SIZEINBASE_2EXP (gmp-impl.h:2728); size > 0, top limb non-zero -/
 def sizeinbase_2exp (up : List Nat) (base2exp : Nat) : Nat :=
